@@ -411,6 +411,74 @@ def unit_reject_other(ctx):
     ctx.note(f"{case}:{'rejected:' + type(r).__name__ if raised else 'accepted'}")
 
 
+def unit_reimport(ctx):
+    """Non-initial states: the DataArray is imported, the RESULT is changed by the user (mesh moved / resized / turned in
+    place, subregions attached, values overwritten), and the same DataArray - or the DataArray of a sibling field on the
+    same mesh - is imported again.  The second import must again be the exported field: every import builds its own
+    objects."""
+    n = ctx.choose("n", [(3,), (3, 2), (2, 1, 3)])
+    fam = ctx.choose("geom", ["unit", "nano"])
+    nvdim = ctx.choose("nvdim", [1, 3])
+    strip = ctx.choose("geometric-attributes", ["kept", "removed"])
+    act = ctx.choose("user-changes-the-first-result", ["mesh.translate in place", "mesh.scale in place", "subregions attached",
+                                                        "array overwritten", "valid overwritten", "rotate90 in place"])
+    second = ctx.choose("second-import", ["same DataArray", "sibling field on the same mesh"])
+    if act == "rotate90 in place" and (len(n) < 2 or nvdim != 1):
+        raise engine.Skip()
+    f = _field(n, fam, nvdim, "default", "float64", ctx.seed)
+    xa = f.to_xarray()
+    dims = f.mesh.region.dims
+    if strip == "removed":
+        if any(k == 1 for k in n):
+            raise engine.Skip()
+        xa = _strip(xa, ["cell", "pmin", "pmax"], dims)
+    inst = ctx.key()
+    ctx.step(1, "first import")
+    r1 = df.Field.from_xarray(xa)
+    edges = np.asarray(r1.mesh.region.edges, dtype=float)
+    ctx.step(1, act)
+    if act == "mesh.translate in place":
+        r1.mesh.translate(list(0.75 * edges), inplace=True)
+    elif act == "mesh.scale in place":
+        r1.mesh.scale(2.0, inplace=True)
+    elif act == "subregions attached":
+        r1.mesh.subregions = {"all": df.Region(p1=r1.mesh.region.pmin, p2=r1.mesh.region.pmax)}
+    elif act == "array overwritten":
+        r1.array[...] = -1.0
+    elif act == "valid overwritten":
+        r1.valid[...] = False
+    else:
+        r1.rotate90(dims[0], dims[1], inplace=True)
+    if second == "same DataArray":
+        g, xb = f, xa
+    else:
+        g = df.Field(f.mesh, nvdim=nvdim, value=np.array(f.array)[::-1] * 2.0 + 1.0)
+        xb = g.to_xarray()
+        if strip == "removed":
+            xb = _strip(xb, ["cell", "pmin", "pmax"], dims)
+    ctx.step(1, "second import")
+    r2 = df.Field.from_xarray(xb)
+    ctx.observe(np.asarray(r2.mesh.region.pmin, dtype=float), r2.array, list(r2.mesh.subregions))
+    before = len(ctx.violations)
+    if strip == "kept":
+        _check_equal(ctx, g, r2, inst, site="from_xarray/second-import")
+    else:
+        ctx.check(2)
+        lat = C.Lattice.of(g.mesh)
+        tol = 16 * max(C.ulp(lat.magnitude(a)) for a in range(len(n)))
+        if tuple(int(k) for k in r2.mesh.n) != tuple(n) or np.any(np.abs(np.asarray(r2.mesh.region.pmin, dtype=float) - np.asarray(g.mesh.region.pmin, dtype=float)) > tol) \
+                or np.any(np.abs(np.asarray(r2.mesh.region.pmax, dtype=float) - np.asarray(g.mesh.region.pmax, dtype=float)) > tol):
+            ctx.fail("from_xarray/second-import/corners", f"pmin {np.asarray(r2.mesh.region.pmin).tolist()} pmax "
+                     f"{np.asarray(r2.mesh.region.pmax).tolist()} n {tuple(r2.mesh.n)}; the exported field has "
+                     f"{np.asarray(g.mesh.region.pmin).tolist()} {np.asarray(g.mesh.region.pmax).tolist()} {n}", instance=inst)
+        elif not np.array_equal(r2.array, g.array):
+            ctx.fail("from_xarray/second-import/values", "values differ", instance=inst)
+    ctx.check()
+    if len(ctx.violations) == before and len(r2.mesh.subregions):
+        ctx.fail("from_xarray/second-import/foreign-subregions", f"the second import carries subregions {list(r2.mesh.subregions)} "
+                 f"that were attached to the FIRST result", instance=inst)
+
+
 # ---------------------------------------------------------------------------
 # provenance
 
@@ -475,5 +543,6 @@ def units(tier):
         {"name": "strip", "fn": unit_strip, "bound": None},
         {"name": "reject_uneven", "fn": unit_reject_uneven, "bound": None},
         {"name": "reject_other", "fn": unit_reject_other, "bound": None},
+        {"name": "reimport", "fn": unit_reimport, "bound": None},
         {"name": "provenance", "fn": unit_provenance, "bound": None},
     ]
